@@ -55,6 +55,10 @@ def _edit(sf, op, v):
         import copy
         sf.charts.append(copy.deepcopy(sf.charts[0]))
         sf.charts[0].description = v
+    elif op == 5:
+        sf.charts[0].meter = v          # in-place edit of an existing chart, nothing else touched
+    elif op == 6:
+        sf.charts.pop()                 # a chart removed
     # op == 0: no edit
 
 
@@ -236,9 +240,9 @@ def save_fails(kind: int, ssc: bool, has_bak: bool, has_out: bool) -> bool:
             xhlib.install_stub()
 
 
-def fs_fault(k: int, ssc: bool, has_bak: bool, has_out: bool) -> bool:
+def fs_fault(k: int, ssc: bool, has_bak: bool, has_out: bool, op: int) -> bool:
     """
-    pre: 1 <= k <= 14
+    pre: 1 <= k <= 14 and 1 <= op <= 6
     post: _
     """
     global LAST
@@ -253,7 +257,7 @@ def fs_fault(k: int, ssc: bool, has_bak: bool, has_out: bool) -> bool:
     try:
         with mutate(name, output_filename=out, backup_filename=bak, filesystem=fs) as sf:
             entry_stream, _ = record_keep(sf)
-            sf["TITLE"] = "z"
+            _edit(sf, op, "z")
     except OSError:
         failed_op = fs.oplog[-1]
         target = out or name
